@@ -260,6 +260,46 @@ func genSplit() {
 		}
 	}
 	l.defBool("expandApkRequiresData", requires)
+
+	// the cache directory: what cachePackage advertises under which name, in which order; what a hit hands to the tar FS
+	impl := load("pkg/apk/apk/implementation.go")
+	var adv, names, hitTar []string
+	if fd := impl.fn("APK.cachePackage"); fd != nil {
+		ast.Inspect(fd.Body, func(x ast.Node) bool {
+			switch t := x.(type) {
+			case *ast.CallExpr:
+				if impl.src(t.Fun) == "paths.AdvertiseCachedFile" && len(t.Args) == 2 {
+					adv = append(adv, impl.src(t.Args[0])+" -> "+impl.src(t.Args[1]))
+				}
+			case *ast.AssignStmt:
+				if len(t.Lhs) == 1 {
+					switch impl.src(t.Lhs[0]) {
+					case "ctlHex", "ctlDst", "sigDst", "datHex", "datDst", "tarDst":
+						names = append(names, impl.src(t))
+					}
+				}
+			}
+			return true
+		})
+	}
+	if len(adv) == 0 || len(names) == 0 {
+		problem("split/implementation.go: AdvertiseCachedFile calls / names of cachePackage not found")
+	}
+	l.defStrList("cachePackageAdvertises", adv)
+	l.defStrList("cachePackageNames", names)
+	if fd := impl.fn("APK.cachedPackage"); fd != nil {
+		for _, st := range fd.Body.List {
+			src := impl.src(st)
+			if strings.HasPrefix(src, "exp.TarFile =") || strings.HasPrefix(src, "dat :=") || strings.HasPrefix(src, "exp.PackageFile =") ||
+				strings.Contains(src, "exp.PackageData()") || strings.HasPrefix(src, "exp.TarFS") {
+				hitTar = append(hitTar, src)
+			}
+		}
+	}
+	if len(hitTar) == 0 {
+		problem("split/implementation.go: data-section statements of cachedPackage not found")
+	}
+	l.defStrList("cachedPackageData", hitTar)
 	l.write()
 
 	for _, fn := range []string{"expandApkWriter.Next", "expandApkWriter.Write", "expandApkWriter.CloseFile", "expandApkWriter.CurrentName",
